@@ -23,7 +23,7 @@ ASSUMPTIONS = ['faults are raised at top-level doc-action boundaries and at entr
                'inside one DocActions method is outside the model except for the rebuild sub-step',
                'formula cells that were already stale before the failed call are charged to C05']
 BUDGET = {'quick': dict(examples=300, shards=16, max_seconds=75),
-          'thorough': dict(examples=3600, shards=16, max_seconds=1800)}
+          'thorough': dict(examples=900, shards=16, max_seconds=1800)}
 SHRINK_BUDGET = {'quick': 40, 'thorough': 300}
 MAX_POS = 60
 
